@@ -22,7 +22,7 @@ import (
 
 var vClassText = map[string]string{"slash": "/", "backslash": "\\", "tab": "\t", "cr": "\r", "lf": "\n", "ctl": "\x01",
 	"host": "evil.example.net", "colon": ":", "at": "@", "pctslash": "%2f", "dot": ".", "qmark": "?", "hash": "#",
-	"space": " ", "pcttab": "%09"}
+	"space": " ", "pcttab": "%09", "own_show": "showAuthToken", "own_send": "sendAuthDocument"}
 
 func vRenderClasses(cl []string) string {
 	var sb strings.Builder
